@@ -1,1 +1,94 @@
-#[allow(unused_imports)] use super::*;
+#[allow(unused_imports)]
+use super::*;
+use crate::device::MockDevice;
+use crate::net::MockSocket;
+use crate::util::MockTimeSource;
+
+pub type MockCloud<P> = GenericCloud<MockDevice, P, MockSocket, MockTimeSource>;
+
+pub struct PeerView {
+    pub addr: SocketAddr,
+    pub node_id: NodeId,
+    pub timeout: Time,
+    pub peer_timeout: u16,
+    pub addrs: Vec<SocketAddr>,
+    pub crypto: String,
+}
+
+pub struct NodeView {
+    pub node_id: NodeId,
+    pub peers: Vec<PeerView>,
+    pub pending: Vec<(SocketAddr, String)>,
+    pub own_addresses: Vec<SocketAddr>,
+    pub next_peers: Time,
+    pub reconnect: Vec<(Vec<SocketAddr>, u16, u16, Time)>,
+    pub dropped: (u64, usize, u64, usize),
+    pub learning: bool,
+    pub broadcast: bool,
+}
+
+impl<P: Protocol> MockCloud<P> {
+    pub fn v_socket(&mut self) -> &mut MockSocket {
+        &mut self.socket
+    }
+
+    pub fn v_device(&mut self) -> &mut MockDevice {
+        &mut self.device
+    }
+
+    /// socket event with a caller-owned (persistent) receive buffer, as `run()` does it
+    pub fn v_socket_event(&mut self, buffer: &mut MsgBuffer) {
+        self.handle_socket_event(buffer)
+    }
+
+    pub fn v_device_event(&mut self, buffer: &mut MsgBuffer) {
+        self.handle_device_event(buffer)
+    }
+
+    pub fn v_housekeep(&mut self) -> Result<(), Error> {
+        self.housekeep()
+    }
+
+    pub fn v_set_crypto(&mut self, crypto: Crypto) {
+        self.crypto = crypto
+    }
+
+    pub fn v_table(&self) -> &ClaimTable<MockTimeSource> {
+        &self.table
+    }
+
+    pub fn v_view(&self, state_of: &dyn Fn(&PeerCrypto<NodeInfo>) -> String) -> NodeView {
+        NodeView {
+            node_id: self.node_id,
+            peers: self
+                .peers
+                .iter()
+                .map(|(a, p)| PeerView {
+                    addr: *a,
+                    node_id: p.node_id,
+                    timeout: p.timeout,
+                    peer_timeout: p.peer_timeout,
+                    addrs: p.addrs.iter().copied().collect(),
+                    crypto: state_of(&p.crypto),
+                })
+                .collect(),
+            pending: self.pending_inits.iter().map(|(a, c)| (*a, state_of(c))).collect(),
+            own_addresses: self.own_addresses.iter().copied().collect(),
+            next_peers: self.next_peers,
+            reconnect: self.reconnect_peers.iter().map(|e| (e.resolved.iter().copied().collect(), e.tries, e.timeout, e.next)).collect(),
+            dropped: (self.traffic.dropped.in_bytes_total + self.traffic.dropped.in_bytes, self.traffic.dropped.in_packets_total + self.traffic.dropped.in_packets, self.traffic.dropped.out_bytes_total + self.traffic.dropped.out_bytes, self.traffic.dropped.out_packets_total + self.traffic.dropped.out_packets),
+            learning: self.learning,
+            broadcast: self.broadcast,
+        }
+    }
+
+    /// a peer entry with a plain (unencrypted) session that advertised the given timeout — only for the sweep of the announcement interval
+    pub fn v_add_fake_peer(&mut self, addr: SocketAddr, peer_timeout: u16) {
+        let mut crypto = self.crypto.peer_instance(self.create_node_info());
+        crate::crypto::verif_hooks_common::force_plain(&mut crypto);
+        self.peers.insert(
+            addr,
+            PeerData { addrs: smallvec![addr], last_seen: MockTimeSource::now(), timeout: MockTimeSource::now() + 100_000, peer_timeout, node_id: [9; 16], crypto },
+        );
+    }
+}
